@@ -3,7 +3,7 @@ import ast
 
 from ..model import AnalysisError
 from ..lib import (FV, decode_new, decode_call, phi_members, is_sym, is_const, is_str, strip_stores, stores_of,
-                   find_assign, find_assigns, simple_assigns, local_term)
+                   find_assign, find_assigns, simple_assigns, local_term, cond_equiv, cond_implies, path_term)
 from ..cfg import always_raises, walk_stmts
 from ..terms import r_sub, r_add
 from . import common as cm
@@ -25,6 +25,10 @@ ANCHORS = [
 ]   # functions whose code the property is anchored in (mutation analysis, evidence)
 ROT = "field_rotator.FieldRotator"
 PT = {"field": FIELD, "new_mesh": MESH, "new_region": REGION}
+
+AUTOMUT_TRIAGE = [
+    (r"__init__$", r"field\.mesh\.bc != ", "only a warning that boundary conditions are lost"),
+]
 
 
 def run(chk):
@@ -132,6 +136,29 @@ def d2_state(chk, repo):
                 okt = any(r.eq(t_, r.spec("getattr(Rotation, method)(*args, **kwargs)")) for t_ in tt)
     chk.ob(ROT + ".rotate::method-dispatch", okt, "C18.D2",
            "quaternion / matrix / rotation vector / MRP / Euler inputs must be handed to the scipy constructor of that name", r.f)
+    al = find_assign(r, lambda t_, s_: (r.ctx.head_of(t_) or ("",))[0] == "sub" and
+                     (decode_call(r.ctx, r.ctx.args_of(t_)[0]) or ("",))[0].endswith("align_vectors"))
+    oka = False
+    if al is not None:
+        env_ = {"i": r.spec("kwargs['initial']"), "f": r.spec("kwargs['final']")}
+        oka = r.eq(al[2], r.spec("Rotation.align_vectors([f, np.cross(i, f)], [i, np.cross(i, f)])[0]", env=env_)) and \
+            cond_equiv(r, path_term(r, al[0]), r.spec("method not in ['from_quat', 'from_matrix', 'from_rotvec', 'from_mrp', 'from_euler'] "
+                                                       "and method == 'align_vector'"))
+    chk.ob(ROT + ".rotate::align-vector", oka, "C18.D2",
+           "method 'align_vector' must build the rotation (first element of scipy's result) that takes `initial` to `final` and "
+           "keeps their common normal fixed", r.f, al[0] if al else None)
+    nv = r.spec("self._orig_field.nvdim")
+    for st in r.stmts():
+        if isinstance(st, ast.Assign) and isinstance(st.targets[0], ast.Name):
+            t_ = r.term(st.value, at=st)
+            if r.eq(t_, r.spec("self._orig_field.array")):
+                chk.ob(ROT + ".rotate::scalar-branch-condition", cond_equiv(r, path_term(r, st), r.spec("self._orig_field.nvdim == 1"),
+                                                                            [nv], pre=lambda x: x[0] in (1, 3), lo=1), "C18.D2",
+                       f"scalar values are taken under {r.show(path_term(r, st))}", r.f, st)
+            elif (r.ctx.head_of(t_) or ("",))[0] == "sub" and any(r.ctx.atoms[a_][0][:2] == ("call", ".apply") for a_ in r.ctx.all_atoms(t_)):
+                chk.ob(ROT + ".rotate::vector-branch-condition", cond_equiv(r, path_term(r, st), r.spec("self._orig_field.nvdim == 3"),
+                                                                            [nv], pre=lambda x: x[0] in (1, 3), lo=1), "C18.D2",
+                       f"vectors are rotated under {r.show(path_term(r, st))}; the constructor admits 1 and 3 components only", r.f, st)
     chk.ob(ROT + ".rotate::unknown-method-refused", any(n_ == "ValueError" for x, n_ in r.raises()), "C18.D2",
            "unknown methods must raise ValueError", r.f)
     bad = []
@@ -187,6 +214,15 @@ def d3_directions(chk, repo):
             val = m.term(sts[0].value, at=sts[0])
             okc = m.eq(it, m.spec("range(self._orig_field.nvdim)")) and m.eq(ix, m.spec("(..., i)", env={"i": i})) and \
                 m.eq(val, m.spec("self._create_interpolation_funcs(rot_field[..., i])(Q).reshape(new_mesh.n)", env={"i": i, "Q": got[1]}))
+    al_ = find_assign(m, lambda t_, s_: (decode_call(m.ctx, t_) or ("",))[0] in ("np.ndarray", "np.empty", "np.zeros"))
+    oka = False
+    if al_ is not None:
+        ca = decode_call(m.ctx, al_[2])
+        shp = ca[2].get("shape") if "shape" in ca[2] else (ca[1][0] if ca[1] else None)
+        oka = shp is not None and (m.eq(shp, m.spec("[*df.Field(mesh=new_mesh, nvdim=3, value=lambda x: x).mesh.n, self._orig_field.nvdim]"))
+                                   or m.eq(shp, m.spec("[*new_mesh.n, self._orig_field.nvdim]")))
+    chk.ob(ROT + "._map_and_interpolate::result-shape", oka, "C18.D3",
+           "the result array must have shape (*new mesh n, nvdim)", m.f, al_[0] if al_ else None)
     chk.ob(ROT + "._map_and_interpolate::per-component", okc, "C18.D3",
            "component i of the result must interpolate component i of the rotated values at the back-rotated positions", m.f)
 
@@ -228,6 +264,17 @@ def d4_geometry(chk, repo):
                                   env={"i": i, "O": O, "lo": w.spec("O.mesh.region.pmin", env={"O": O}),
                                        "hi": w.spec("O.mesh.region.pmax", env={"O": O}), "c": w.spec("O.mesh.cell", env={"O": O})})
                     okg = w.eq(tt, want)
+    lp3 = [st for st in w.stmts() if isinstance(st, ast.For)]
+    chk.ob(ROT + "._create_interpolation_funcs::three-axes", len(lp3) == 1 and w.eq(w.term(lp3[0].iter, at=lp3[0]), w.spec("range(3)")),
+           "C18.D4", "one grid per spatial axis: range(3)", w.f)
+    nn_ = FV(repo, ROT + "._calculate_new_n", param_types=PT)
+    rr, tn = _single_return(nn_)
+    E = nn_.spec("np.sum(abs(self._rotation.apply(np.eye(3) * self._orig_field.mesh.cell)), axis=0)")
+    want_n = nn_.spec("np.round(np.divide(new_region.edges, E * (self._orig_field.mesh.dV / np.prod(E)) ** (1 / 3))).astype(int).tolist()",
+                      env={"E": E})
+    chk.ob(ROT + "._calculate_new_n::volume-preserving-resolution", nn_.eq(tn, want_n), "C18.D4",
+           f"returns {nn_.show(tn)[:200]}; expected round(new edges / (rotated cell extents scaled so that the cell volume is kept))",
+           nn_.f, rr)
     chk.ob(ROT + "._create_interpolation_funcs::grid-from-centre", okg, "C18.D4",
            "grid points per axis: cell centres (plus the two faces) of the original mesh measured from its centre, same axis i "
            "throughout", w.f)
@@ -247,8 +294,25 @@ def d4_geometry(chk, repo):
         a = sites[-1].args
         O = r.spec("self._orig_field")
         ok = all(r.eq(a.get(k), r.spec(f"O.{k}", env={"O": O})) for k in ("nvdim", "vdims", "vdim_mapping")) and a.get("mesh") is not None
-        d = decode_new(repo, r.ctx, a.get("mesh"))
+        d = decode_new(repo, r.ctx, a.get("mesh")) if a.get("mesh") is not None else None
         ok = ok and bool(d and d[0] == MESH and r.eq(d[1].get("region"), r.spec("self._calculate_new_region()")))
+        # resolution: the caller's n, or the one computed for the new region when none is given
+        nn = d[1].get("n") if d else None
+        mem = phi_members(r.ctx, nn) if nn is not None else []
+        okn = len(mem) == 2 and any(is_sym(r.ctx, m_, "param:n") for m_ in mem) and \
+            any(r.eq(m_, r.spec("self._calculate_new_n(self._calculate_new_region())")) for m_ in mem)
+        chk.ob(ROT + ".rotate::resolution", okn, "C18.D4",
+               f"n={r.show(nn) if nn is not None else None}; expected the requested n or _calculate_new_n(new region)", r.f, sites[-1].call)
+        for st in r.stmts():
+            if isinstance(st, ast.Assign) and (decode_call(r.ctx, r.term(st.value, at=st)) or ("",))[0].endswith("_calculate_new_n"):
+                chk.ob(ROT + ".rotate::default-resolution-iff-none", cond_equiv(r, path_term(r, st), r.spec("n is None")), "C18.D4",
+                       f"the resolution is computed under {r.show(path_term(r, st))}; expected: no n was requested", r.f, st)
+        val = a.get("value")
+        cv = decode_call(r.ctx, val) if val is not None else None
+        okv = bool(cv and cv[0].endswith("_map_and_interpolate") and len(cv[1]) == 3 and r.eq(cv[1][1], a.get("mesh")))
+        chk.ob(ROT + ".rotate::values-interpolated-on-the-result-mesh", okv, "C18.D4",
+               f"value={r.show(val)[:120] if val is not None else None}; expected _map_and_interpolate(<the result mesh>, <rotated values>)",
+               r.f, sites[-1].call)
     chk.ob(ROT + ".rotate::result-field", ok, "C18.D4",
            "the rotated field lives on a mesh over _calculate_new_region() and keeps nvdim, labels and mapping of the original", r.f)
     st = [(s, val) for s, a_, val, k in r.self_stores() if a_ == "_rotated_field"]
